@@ -64,6 +64,7 @@ DupInModule(r, m) ==
 
 AddModuleError(m) ==
   IF \E i \in DOMAIN m.evals : ~IsSome(m.evals[i].addr) THEN "extern-value-without-address"
+  ELSE IF CHECKNEGADDR /\ \E i \in DOMAIN m.evals : m.evals[i].addr < 0 THEN "conv-extern-value-address"
   ELSE IF \E i \in DOMAIN m.exts : ~IsSome(m.exts[i].size) \/ ~IsSome(m.exts[i].align)
        THEN "extern-type-without-size-or-align"
   ELSE IF \E i \in DOMAIN m.exts : m.exts[i].size < 0 \/ m.exts[i].align < 0
